@@ -39,6 +39,11 @@ impl D {
         }
     }
     fn show(&self) -> String { format!("{:?}", self) }
+    /// x lies strictly outside the support of a continuous law (the density there is exactly 0, not merely tiny)
+    fn strictly_outside_support(&self, x: f64) -> bool {
+        match *self { Gamma(..) | ChiSquared(..) | Exponential(..) => x < 0.0, Beta(..) => x < 0.0 || x > 1.0, Pareto(_, m) => x < m,
+            Uniform(a, b) => x < a || x > b, _ => false }
+    }
     /// `update` takes every parameter as an f64: integer parameters survive the round trip exactly below 2^53
     fn params_exact(&self) -> bool {
         match *self { Binomial(n, _) => n < (1u64 << 53), ChiSquared(k) => (k as u64) < (1u64 << 53),
@@ -318,7 +323,7 @@ fn param_grid(r: &mut Rng, extra: usize) -> Vec<D> {
 fn points_cont(d: &D, r: &mut Rng, n: usize) -> Vec<f64> {
     let mut p = vec![];
     match *d {
-        Normal(m, s) | Gumbel(m, s) => { for z in [0.0, 1.0, -1.0, 3.0, -3.0, 8.0, -4.0, 20.0, 30.0] { p.push(m + z * s); } for _ in 0..n { p.push(m + r.uniform(-6.0, 8.0) * s); } }
+        Normal(m, s) | Gumbel(m, s) => { for z in [0.0, 1.0, -1.0, 3.0, -3.0, 8.0, -4.0, 20.0, 30.0, -50.0, 50.0, -800.0, 800.0, -1e4, 1e4] { p.push(m + z * s); } for _ in 0..n { p.push(m + r.uniform(-6.0, 8.0) * s); } }
         Gamma(..) | ChiSquared(..) => {
             let (a, b) = match *d { Gamma(a, b) => (a, b), ChiSquared(k) => (k as f64 / 2.0, 0.5), _ => unreachable!() };
             let (mean, sd) = (a / b, a.sqrt() / b);
@@ -404,7 +409,9 @@ pub fn oracle(tier: &str, seed: u64) -> (u64, Vec<Finding>) {
                             if !((lgot - lw).abs() <= 1e-9 * lw.abs().max(1.0)) {
                                 fail(format!("{}:ln_pdf-is-not-ln-of-pdf", nm), (lgot - lw).abs(), format!("{}.ln_pdf({:e}) = {:e}, ln of the textbook density {:e}", d.show(), x, lgot, lw), format!("{} x={:e}", d.show(), x));
                             }
-                        } else if want == 0.0 && !(lgot == f64::NEG_INFINITY) {
+                        } else if want == 0.0 && d.strictly_outside_support(x) && !(lgot == f64::NEG_INFINITY) {
+                            // (only where the density is EXACTLY 0, i.e. outside the support: a reference density that merely underflows, e.g. 50 standard
+                            //  deviations out, says nothing about the logarithm, and a directly computed log-density is right to be finite there)
                             fail(format!("{}:ln_pdf-is-not-ln-of-pdf", nm), 1.0, format!("{}.ln_pdf({:e}) = {:e} where the density is 0", d.show(), x, lgot), format!("{} x={:e}", d.show(), x));
                         }
                     }
